@@ -88,7 +88,8 @@ def rule_tbl(c, prog):
 
 def run(c, prog):
     rule_tbl(c, prog)
-    from . import C01_rot, C01_alg
+    from . import C01_rot, C01_alg, C01_arm
     C01_rot.run(c, prog)
     C01_alg.run(c, prog)
+    C01_arm.run(c, prog)
     c.not_decided += ["forest/PRNT reconstruction for every tree shape", "lz4/zstd round trip (third party)"]
